@@ -2,7 +2,7 @@
    the tokens / path steps `unvisit` gives them: lexical class, meaning, and
    (for values of the shape the visitor produces) what the visitor reads back. *)
 From Coq Require Import NArith ZArith List String Bool Lia.
-From V Require Import Model.PatternSyntax Proofs.PatternNumbers Proofs.PatternLit Proofs.PatternPath
+From V Require Import Model.PatternSyntax Spec.PatternSpec Proofs.PatternR Proofs.PatternNumbers Proofs.PatternLit Proofs.PatternPath
   Proofs.PatternCmp Proofs.PatternObs Proofs.PatternEscape Proofs.PatternTokens Proofs.PatternMeaning.
 Import ListNotations.
 Open Scope N_scope.
@@ -20,8 +20,6 @@ Proof. intros a. apply ustr_eqb_eq. reflexivity. Qed.
 (* ------------------------------------------------------------------ *)
 (** * Constants *)
 
-Definition fnorm_b (f : fval) : bool :=
-  digs (f_ip f) && digs (f_fp f) && ustr_eqb (strip0 (f_ip f)) (f_ip f) && ustr_eqb (rstrip0 (f_fp f)) (f_fp f).
 
 Lemma fnorm_b_spec : forall f, fnorm_b f = true <-> fnorm f.
 Proof.
@@ -29,27 +27,14 @@ Proof.
 Qed.
 
 (* a constant that prints to one token of the grammar (lists are handled by the set literal) *)
-Definition const_ok (c : aconst) : bool :=
-  match c with
-  | CString v q => q || (match lex_body v with Some _ => true | None => false end)
-  | CTimestamp t => ts_ok t
-  | CInt _ => true
-  | CFloat f => fnorm_b f && float_plain f
-  | CBool _ => true
-  | CBinary v => b64_groups v
-  | CHex v => hex_pairs v && negb (is_nil v)
-  | CList _ => false
-  end.
 
 (* the constant is of the shape the visitor produces (string bodies kept raw) *)
-Definition const_canon (c : aconst) : bool :=
-  match c with CString _ q => negb q | CList _ => false | _ => true end.
 
 Definition const_tok (c : aconst) : token :=
   match pr_const c with [T t] => t | _ => t_EOF end.
 
 Lemma tok_of_const_leaf : forall c, const_ok c = true -> tok_of_const c = Some (const_tok c).
-Proof. intros c H. unfold tok_of_const, const_tok. destruct c; try reflexivity. discriminate H. Qed.
+Proof. intros c H. unfold PatternSyntax.tok_of_const, const_tok. destruct c; try reflexivity. discriminate H. Qed.
 
 Lemma string_token_ok : forall body, lex_body body <> None -> string_ok (c_quote :: body ++ [c_quote]) = true.
 Proof.
@@ -82,7 +67,7 @@ Lemma const_token : forall c, const_ok c = true ->
   | _ => sv_lit (const_tok c) = c
   end.
 Proof.
-  intros c H. destruct c as [v q|t|z|f|b|v|v|l]; cbn [const_ok] in H; unfold const_tok; cbn [pr_const kinds_of].
+  intros c H. destruct c as [v q|t|z|f|b|v|v|l]; cbn [const_ok] in H; unfold const_tok; cbn [PatternSyntax.pr_const kinds_of].
   - (* string *)
     assert (L : lex_body (if q then escape v else v) <> None).
     { destruct q; [rewrite lex_body_escape; discriminate|]. cbn [orb] in H. destruct (lex_body v); [discriminate|discriminate]. }
@@ -93,35 +78,33 @@ Proof.
     destruct (ts_token_ok t H) as [T1 T2].
     split; [apply kind_in_make; [reflexivity|exact T1]|].
     split; [unfold lit_sem; cbn [tk tx]; rewrite T2; reflexivity|].
-    unfold sv_lit, visit_terminal. cbn [tk tx]. rewrite print_ts_body. change (116 =? 116) with true. cbn iota.
+    unfold sv_lit, PatternSyntax.visit_terminal. cbn [tk tx]. rewrite print_ts_body. change (116 =? 116) with true. cbn iota.
     rewrite print_ts_body in T2. rewrite T2. reflexivity.
   - (* int *)
     destruct (int_tok_kind z) as [K O]. fold (int_tok z).
     split; [apply kind_in_make; [destruct K as [K|K]; rewrite K; reflexivity|exact O]|].
     split; [destruct K as [K|K]; unfold lit_sem; rewrite K; reflexivity|].
-    unfold sv_lit, visit_terminal. destruct K as [K|K]; rewrite K; unfold int_tok; cbn [tx]; rewrite py_int_dec; reflexivity.
+    unfold sv_lit, PatternSyntax.visit_terminal. destruct K as [K|K]; rewrite K; unfold int_tok; cbn [tx]; rewrite py_int_dec; reflexivity.
   - (* float *)
-    apply andb_true_iff in H. destruct H as [Hn Hp]. apply fnorm_b_spec in Hn.
-    destruct (float_print_parse f Hn Hp) as [P [K O]]. fold (float_tok f).
+    pose proof (proj1 (fnorm_b_spec f) H) as Hn.
+    destruct (float_print_parse f Hn) as [P [K O]]. fold (float_tok f).
     split; [apply kind_in_make; [destruct K as [K|K]; rewrite K; reflexivity|exact O]|].
     split; [destruct K as [K|K]; unfold lit_sem; rewrite K; reflexivity|].
-    unfold sv_lit, visit_terminal. destruct K as [K|K]; rewrite K; unfold float_tok; cbn [tx]; rewrite P; reflexivity.
+    unfold sv_lit, PatternSyntax.visit_terminal. destruct K as [K|K]; rewrite K; unfold float_tok; cbn [tx]; rewrite P; reflexivity.
   - (* bool *)
     split; [apply kind_in_make; [reflexivity|destruct b; reflexivity]|]. split; [reflexivity|]. destruct b; reflexivity.
   - (* binary *)
     assert (E : u "b'" ++ v ++ [c_quote] = 98 :: c_quote :: v ++ [c_quote]) by reflexivity. rewrite E.
     split; [apply kind_in_make; [reflexivity|]|].
     + unfold token_ok, binary_ok. cbn [tk tx]. rewrite prefixed_body_make. exact H.
-    + split; [reflexivity|]. unfold sv_lit, visit_terminal, mk_binary_from_tree. cbn [tk tx bind].
+    + split; [reflexivity|]. unfold sv_lit, PatternSyntax.visit_terminal, mk_binary_from_tree. cbn [tk tx bind].
       rewrite prefixed_body_make, H. reflexivity.
   - (* hex *)
     assert (E : u "h'" ++ v ++ [c_quote] = 104 :: c_quote :: v ++ [c_quote]) by reflexivity. rewrite E.
-    apply andb_true_iff in H. destruct H as [Hp Hn].
     split; [apply kind_in_make; [reflexivity|]|].
-    + unfold token_ok, hex_ok. cbn [tk tx]. rewrite prefixed_body_make. exact Hp.
-    + split; [unfold lit_sem; cbn [tk tx]; rewrite prefixed_body_make; exact Hn|].
-      unfold sv_lit, visit_terminal, mk_hex_from_tree. cbn [tk tx bind].
-      rewrite prefixed_body_make, Hn, Hp. reflexivity.
+    + unfold token_ok, hex_ok. cbn [tk tx]. rewrite prefixed_body_make. exact H.
+    + split; [reflexivity|].
+      unfold sv_lit, PatternSyntax.visit_terminal. cbn [tk tx]. rewrite mk_hex_rep, prefixed_body_make, H. reflexivity.
   - discriminate H.
 Qed.
 
